@@ -1,10 +1,10 @@
 #!/bin/bash
 # usage: seedrun.sh <ID> [tier]  — apply every seeded change of a property to the tree under test (default /repo,
 # or $SEEDREPO = a scratch worktree of /repo HEAD), run the check against it, undo; records the outcome in seeded/<id>-x/result.txt
-ID=$1; TIER=${2:-quick}
+ID=$1; TIER=${2:-quick}; SEL=${3:-*}
 R=${SEEDREPO:-/repo}
 cd /verif
-for d in seeded/$ID-*; do
+for d in seeded/$ID-$SEL; do
   [ -f $d/patch.diff ] || continue
   P=$PWD/$d/patch.diff; if ! git -C $R apply --check $P 2>/dev/null && [ -f $PWD/$d/patch.head.diff ]; then P=$PWD/$d/patch.head.diff; fi
   if ! git -C $R apply --check $P 2>/dev/null; then echo "$d: patch does not apply to current HEAD"; echo "patch does not apply to /repo HEAD any more (the site was changed by a fix: commit)" > $d/result.txt; continue; fi
